@@ -20,7 +20,11 @@ import (
 	"verif/harness/internal/sso"
 )
 
-const allocBound = 64 << 20 // fixed bound, independent of the inflated size (io.ReadAll doubles its buffer: ~3x the 10 MB cap)
+const allocBase = 64 << 20 // fixed part of the bound, independent of the inflated size (io.ReadAll doubles its buffer: ~3x the 10 MB cap)
+
+// allocBound: the fixed part plus a multiple of the REQUEST size (net/http, form parsing, percent- and base64-decoding each copy
+// the request): proportional to what was sent, never to what it inflates to
+func allocBound(requestBytes int) uint64 { return allocBase + 16*uint64(requestBytes) }
 
 // bomb builds a document of the given inflated size with the padding at the given place, deflated without
 // materialising more than a window at a time.
@@ -113,7 +117,7 @@ func Run(dir, tier string, seed int64) error {
 		run.AddCase(id, fmt.Sprintf("(%s, %s, %s)", coqgen.Z(int64(id)), coqgen.Z(int64(n)), obs), desc)
 		run.Distinct(fmt.Sprintf("codec/%d", n))
 		run.Sample(desc)
-		if alloc > allocBound {
+		if alloc > allocBound(len(msg)) {
 			run.Fail(coqgen.Failure{ID: id, Class: "inflate-allocation-unbounded", What: fmt.Sprintf("InflateAndDecode allocated %d MiB for a %d kB message inflating to %d MiB", alloc>>20, len(msg)>>10, n>>20), Input: desc})
 		}
 		id++
@@ -154,7 +158,7 @@ func Run(dir, tier string, seed int64) error {
 				desc := map[string]interface{}{"endpoint": e.name, "inflated_bytes": n, "request_bytes": len(msg), "padding": place, "valid_document": valid, "accepted": accepted, "total_alloc": alloc, "reply": rep.Kind, "code": rep.Code}
 				run.Count("endpoint=" + e.name)
 				run.Distinct(fmt.Sprintf("%s/%d/%s/%v", e.name, n, place, valid))
-				if alloc > allocBound {
+				if alloc > allocBound(len(msg)) {
 					run.Fail(coqgen.Failure{ID: id, Class: "inflate-allocation-unbounded", What: fmt.Sprintf("%s allocated %d MiB for a %d kB request inflating to %d MiB", e.name, alloc>>20, len(msg)>>10, n>>20), Input: desc})
 				}
 				if n > 10<<20 && accepted {
@@ -177,7 +181,7 @@ func Run(dir, tier string, seed int64) error {
 			run.Res.Evaluations++
 			desc := map[string]interface{}{"what": "InflateAndDecode", "container": container, "inflated_bytes": n, "request_bytes": len(msg), "padding": place, "error": derr != nil, "total_alloc": alloc}
 			run.Distinct(fmt.Sprintf("codec/%s/%s", container, place))
-			if alloc > allocBound {
+			if alloc > allocBound(len(msg)) {
 				run.Fail(coqgen.Failure{ID: id, Class: "inflate-allocation-unbounded", What: fmt.Sprintf("InflateAndDecode allocated %d MiB for a %d kB %s message inflating to %d MiB", alloc>>20, len(msg)>>10, container, n>>20), Input: desc})
 			}
 			if derr == nil {
@@ -193,7 +197,7 @@ func Run(dir, tier string, seed int64) error {
 			desc = map[string]interface{}{"endpoint": e.name, "container": container, "inflated_bytes": n, "request_bytes": len(msg), "padding": place, "accepted": accepted, "total_alloc": alloc, "reply": rep.Kind, "code": rep.Code}
 			run.Count("endpoint=" + e.name)
 			run.Distinct(fmt.Sprintf("%s/%s/%s", e.name, container, place))
-			if alloc > allocBound {
+			if alloc > allocBound(len(msg)) {
 				run.Fail(coqgen.Failure{ID: id, Class: "inflate-allocation-unbounded", What: fmt.Sprintf("%s allocated %d MiB for a %d kB %s request inflating to %d MiB", e.name, alloc>>20, len(msg)>>10, container, n>>20), Input: desc})
 			}
 			if accepted {
@@ -202,6 +206,6 @@ func Run(dir, tier string, seed int64) error {
 			id++
 		}
 	}
-	run.Res.Rule = "DEFLATE payloads inflating to 1 MiB .. 128 MiB (thorough: 1 GiB) around the 10 MiB cap (cap-1, cap, cap+1) through the exported InflateAndDecode (result compared with the Coq read-loop model) and, with the padding in a comment / text / attribute value / after the root element, nested in valid and invalid documents, through SSO (query and form) and logout (query and form); the same 64 MiB bombs wrapped as zlib and gzip streams; runtime.MemStats.TotalAlloc around each call must stay below a fixed 64 MiB and oversized payloads must not be accepted. distinct = (entry point, inflated size, padding place, document validity)."
+	run.Res.Rule = "DEFLATE payloads inflating to 1 MiB .. 128 MiB (thorough: 1 GiB) around the 10 MiB cap (cap-1, cap, cap+1) through the exported InflateAndDecode (result compared with the Coq read-loop model) and, with the padding in a comment / text / attribute value / after the root element, nested in valid and invalid documents, through SSO (query and form) and logout (query and form); the same 64 MiB bombs wrapped as zlib and gzip streams; runtime.MemStats.TotalAlloc around each call must stay below 64 MiB + 16 x the request size (never a function of the inflated size) and oversized payloads must not be accepted. distinct = (entry point, inflated size, padding place, document validity)."
 	return run.Finish()
 }
